@@ -27,11 +27,14 @@ var StrMembers = map[string][]string{
 	"fffd":      {"\ufffd", "a\ufffdb", "\ufffd\ufffd"},
 	"bmp":       {"é", "ž", "漢字", "ß", "Ω", "\u00a0"},
 	"bmpnp":     {"\ufeff", "\u200b", "\ue000", "\uffff", "\ufdd0", "\u0378"},
-	"astral":    {"😀", "𝄞", "a😀b", "𐍈"},
-	"astralnp":  {"\U000e0001", "\U000f0000", "\U0010ffff", "\U0003fffe", "\U000e0001\U000e0002"},
-	"sigils":    {".", "#", ".a#1", "a.b", "#0"},
-	"brackets":  {"]", "}", "see [1] and [2]", "{\"ids\":[1,2]}", "],[", "\\\"]", "™]x", "a•}", "Ģ]", "Ŝ\"]"},
-	"long":      {strings.Repeat("ab", 300), strings.Repeat("é", 129)},
+	// the last five: an astral character after runs of 7 … 255 BMP characters (in the \u spellings: a surrogate pair
+	// that follows a run of exactly that many escapes — decoders that work in blocks must not split it)
+	"astral": {"😀", "𝄞", "a😀b", "𐍈", strings.Repeat("a", 7) + "😀", strings.Repeat("é", 15) + "😀" + strings.Repeat("b", 15) + "𝄞",
+		strings.Repeat("x", 31) + "𐍈" + strings.Repeat("y", 31) + "😀", strings.Repeat("ž", 63) + "😀", strings.Repeat("a", 127) + "𝄞" + strings.Repeat("b", 127) + "😀", strings.Repeat("q", 255) + "😀"},
+	"astralnp": {"\U000e0001", "\U000f0000", "\U0010ffff", "\U0003fffe", "\U000e0001\U000e0002"},
+	"sigils":   {".", "#", ".a#1", "a.b", "#0"},
+	"brackets": {"]", "}", "see [1] and [2]", "{\"ids\":[1,2]}", "],[", "\\\"]", "™]x", "a•}", "Ģ]", "Ŝ\"]"},
+	"long":     {strings.Repeat("ab", 300), strings.Repeat("é", 129)},
 }
 
 // StrClassOrder is the class list (stable order for reports).
